@@ -16,7 +16,7 @@ pub const RULE: &str = "case = (alphabet, count data from random sequence sets o
 pub const REQUIRED: &[&str] = &[
     "alphabet.dna", "alphabet.protein", "source.from_sequences", "source.raw_counts", "pseudo.scalar", "pseudo.zero",
     "pseudo.per_symbol", "pseudo.filled_in_place", "bg.uniform", "bg.dyadic", "bg.zero_entries", "bg.tiny_positive_entry", "bg.from_counts", "bg.from_sequence",
-    "base.2", "base.10", "base.e", "base.3.7", "route.one_step", "route.two_step", "route.rescale", "route.from_impls", "route.default_background", "class.wildcard_frequency_under_default_background",
+    "base.2", "base.10", "base.e", "base.3.7", "route.one_step", "route.two_step", "route.rescale", "route.rescale_to_default", "route.from_impls", "route.default_background", "class.wildcard_frequency_under_default_background",
     "invalid.unequal_lengths", "invalid.unequal_lengths.empty_member", "invalid.unequal_lengths.leading_empty", "invalid.freq_row_sum", "invalid.freq_not_a_number", "route.transfac_record", "invalid.bg_out_of_range", "invalid.bg_negative_sum_one", "invalid.bg_sum", "invalid.bg_nan",
     "windows.bracketed", "class.neg_inf_score",
 ];
@@ -426,9 +426,10 @@ fn run_case<A: Alphabet>(case: u64, rng: &mut Rng, rep: &mut Report, alpha: &str
         let into = freq.clone().into_scoring(bg.clone());
         let rescaled = freq.to_weight(None).rescale(bg.clone());
         let rescaled_scoring = rescaled.to_scoring();
-        (weight, two_step, two_step_b2, one_step, into, rescaled, rescaled_scoring)
+        let back = weight.rescale(None);
+        (weight, two_step, two_step_b2, one_step, into, rescaled, rescaled_scoring, back)
     });
-    let (weight, two_step, two_step_b2, one_step, into, rescaled, rescaled_scoring) = match res {
+    let (weight, two_step, two_step_b2, one_step, into, rescaled, rescaled_scoring, back) = match res {
         Ok(x) => x,
         Err(p) => {
             fail(rep, &format!("c09.panic:{}", panic_site(&p)), format!("panic in the conversions: {}", p), &notes, J::Null);
@@ -485,6 +486,30 @@ fn run_case<A: Alphabet>(case: u64, rng: &mut Rng, rep: &mut Report, alpha: &str
                     fail(rep, "c09.rescale", format!("to_weight(None).rescale(bg).to_scoring(): score[{}][{}] = {}, expected {}", i, j, got_rs, s2_ref), &notes, J::Null);
                     return;
                 }
+            }
+        }
+    }
+    // ... and the way back: to_weight(bg).rescale(None) carries the default background and the
+    // weights frequency / uniform (judged where the old background is not zero; 0 for the wildcard)
+    rep.cover("route.rescale_to_default");
+    for j in 0..k {
+        let want = if j == k - 1 { 0.0 } else { uni };
+        if !rel_close(back.background().frequencies()[j] as f64, want, 1e-6) {
+            fail(rep, "c09.rescale", format!("to_weight(bg).rescale(None) carries background[{}] = {}, the default background has {}", j, back.background().frequencies()[j], want), &notes, J::Null);
+            return;
+        }
+    }
+    for i in 0..w {
+        for j in 0..k {
+            if bgv[j] == 0.0 {
+                continue;
+            }
+            let f = freq.matrix()[i][j] as f64;
+            let want = if j == k - 1 { 0.0 } else { f / uni };
+            let got = back.matrix()[i][j] as f64;
+            if !rel_close(got, want, 2e-5) {
+                fail(rep, "c09.rescale", format!("to_weight(bg).rescale(None): weight[{}][{}] = {}, frequency / default background = {}", i, j, got, want), &notes, J::Null);
+                return;
             }
         }
     }
